@@ -53,6 +53,15 @@ def f_of(fn, fname, al):
     return out
 
 
+def _view(ctx, qualname):
+    """The root finder with its straight-line private helpers substituted (a split into `_midpoint`, `_update_history`, ... is the same algorithm)."""
+    key = ('c18.view', qualname)
+    if key not in ctx.memo:
+        from ..inline import inlined_view
+        ctx.memo[key] = inlined_view(ctx, ctx.prog.func(qualname), max_inlines=16)
+    return ctx.memo[key]
+
+
 def run(ctx, rep):
     prog = ctx.prog
     rep.trust(*K.TRUSTED_BASE_COMMON, 'np.clip(x, lo, hi) lies in [lo, hi]; np.choose(mask, [a, b]) picks a or b per lane',
@@ -74,13 +83,13 @@ def run(ctx, rep):
     bisect(ctx, rep)
     chandrupatla(ctx, rep)
     for name in ('bisect', 'chandrupatla'):
-        lanes(ctx, rep, prog.func(OPT + name))
-        float_buffers(ctx, rep, prog.func(OPT + name))
+        lanes(ctx, rep, _view(ctx, OPT + name))
+        float_buffers(ctx, rep, _view(ctx, OPT + name))
 
 
 def bisect(ctx, rep):
     prog = ctx.prog
-    fn = prog.func(OPT + 'bisect')
+    fn = _view(ctx, OPT + 'bisect')
     _NF_CTX['prog'], _NF_CTX['fn'] = prog, fn
     fp, lo, hi = fn.params[0], fn.params[1], fn.params[2]
     al = aliases(fn, [lo, hi])
@@ -494,7 +503,7 @@ def _bracket_invariant(ctx, rep, fn, fp, lp):
 
 def chandrupatla(ctx, rep):
     prog = ctx.prog
-    fn = prog.func(OPT + 'chandrupatla')
+    fn = _view(ctx, OPT + 'chandrupatla')
     fp, lo, hi = fn.params[0], fn.params[1], fn.params[2]
     al = aliases(fn, [lo, hi])
     fmap = f_of(fn, fp, al)
